@@ -275,6 +275,256 @@ func enumerate(c int64, L int, emit func([]hx.T)) {
 	rec(0)
 }
 
+// ---------------------------------------------------------------- run services
+
+// exhaustive small scope over the life cycle of one run service (centre 4): every sequence of
+// length L over the alphabet below, after a prefix (a global subscription; started or not) and
+// followed by: a global publication, the loop runs, another publication, a subscription, a send.
+// Listener programs: 1 stops the service from inside the listener, 2 publishes again to the
+// service's own centre.
+func enumerateSvc(started bool, L int, emit func([]hx.T)) {
+	const c = int64(4)
+	pre := []hx.T{
+		hx.C("ODef", 1, []hx.T{hx.C("AStop", c)}),
+		hx.C("ODef", 2, []hx.T{hx.C("APub", c, 1, []int64{9})}),
+		hx.C("OAct", hx.C("ASub", c, 1, 1, 0, []int64{1}, 0)),
+	}
+	if started {
+		pre = append(pre, hx.C("OStart", c))
+	}
+	alpha := []hx.T{
+		hx.C("OStart", c),
+		hx.C("ORun", c),
+		hx.C("OAct", hx.C("AGPub", 1, []int64{2}, 1)),
+		hx.C("OAct", hx.C("AStop", c)),                           // Stop() from a foreign goroutine
+		hx.C("OOwn", c, hx.C("AStop", c)),                        // Stop() from the loop (busy task)
+		hx.C("OOwn", c, hx.C("ASub", c, 1, 1, 1, []int64{5}, 1)), // the loop subscribes a listener that stops the service
+		hx.C("OAct", hx.C("ASub", c, 1, 0, 2, []int64{6}, 2)),    // the driver subscribes (applies while there is no loop) a re-publisher
+		hx.C("OOwn", c, hx.C("APub", c, 1, []int64{7})),          // the loop sends to its own queue
+		hx.C("OAct", hx.C("APub", c, 2, []int64{3})),             // foreign send, nobody listens
+		hx.C("OOwn", c, hx.C("AClear", c)),
+		hx.C("OOwn", c, hx.C("AUnsub", c, 1, 1)),
+	}
+	post := []hx.T{
+		hx.C("OAct", hx.C("AGPub", 1, []int64{3}, 1)),
+		hx.C("ORun", c),
+		hx.C("OAct", hx.C("AGPub", 1, []int64{4}, 1)),
+		hx.C("OAct", hx.C("ASub", c, 1, 1, 3, []int64{8}, 0)),
+		hx.C("OAct", hx.C("APub", c, 1, []int64{5})),
+	}
+	cur := make([]hx.T, L)
+	var rec func(d int)
+	rec = func(d int) {
+		if d == L {
+			ops := append(append(append([]hx.T{}, pre...), cur...), post...)
+			emit(ops)
+			return
+		}
+		for _, a := range alpha {
+			cur[d] = a
+			rec(d + 1)
+		}
+	}
+	rec(0)
+}
+
+// teardown: the life of a run service with events in flight.  1-3 listeners on a run service
+// (subscribed before or after Start, by the driver while there is no loop or by the loop
+// itself), normal deliveries, then publications that stay queued because the loop is busy,
+// Stop() from the driver / from the busy task / from a listener / from the other service's
+// loop, more publications before and after the loop has ended, late subscriptions, a second
+// Start.
+func genTeardown(r *rand.Rand) []hx.T {
+	c := int64(4 + r.Intn(2))
+	other := 9 - c
+	names := int64(1 + r.Intn(2))
+	var ops []hx.T
+	progs := [][]hx.T{
+		{hx.C("AStop", c)},
+		{hx.C("APub", c, 1, []int64{9})},
+		{hx.C("AGPub", 1, []int64{8}, 1)},
+		{hx.C("AUnsubSelf")},
+		{hx.C("ASub", c, 1, 1, 2, []int64{7}, 0)},
+		{hx.C("AStop", other)},
+	}
+	for pid := int64(1); pid <= 3; pid++ {
+		ops = append(ops, hx.C("ODef", pid, hx.Pick(r, progs)))
+	}
+	startFirst := r.Intn(2) == 0
+	act := func(a hx.T) hx.T { return hx.C("OAct", a) }
+	if startFirst {
+		// while the loop exists only the loop goroutine subscribes
+		ops = append(ops, hx.C("OStart", c))
+		act = func(a hx.T) hx.T { return hx.C("OOwn", c, a) }
+	}
+	nl := 1 + r.Intn(3)
+	for i := 0; i < nl; i++ {
+		how := int64(1)
+		if r.Intn(4) == 0 {
+			how = 0
+		}
+		pid := int64(0)
+		if r.Intn(3) == 0 {
+			pid = 1 + r.Int63n(3)
+		}
+		ops = append(ops, act(hx.C("ASub", c, 1+r.Int63n(names), how, r.Int63n(4), []int64{int64(i + 1)}, pid)))
+	}
+	if r.Intn(3) == 0 {
+		// another centre subscribed to the same names: it must be served whatever this service does
+		oc := hx.Pick(r, []int64{1, 2, other})
+		ops = append(ops, hx.C("OAct", hx.C("ASub", oc, 1, 1, 0, []int64{50}, 0)))
+	}
+	pub := func(tag int64) hx.T {
+		switch r.Intn(6) {
+		case 0:
+			return hx.C("OAct", hx.C("APub", c, 1+r.Int63n(names), []int64{tag})) // foreign send
+		case 1:
+			return hx.C("OOwn", c, hx.C("APub", c, 1+r.Int63n(names), []int64{tag})) // the loop's own send
+		case 2:
+			return hx.C("OAct", hx.C("AGPub", 1+r.Int63n(names+1), []int64{tag}, 1)) // maybe nobody listens
+		default:
+			return hx.C("OAct", hx.C("AGPub", 1+r.Int63n(names), []int64{tag}, 1+r.Int63n(2)))
+		}
+	}
+	if !startFirst {
+		for i := r.Intn(3); i > 0; i-- {
+			ops = append(ops, pub(10)) // backlog before Start
+		}
+		ops = append(ops, hx.C("OStart", c))
+	}
+	for i := r.Intn(3); i > 0; i-- {
+		ops = append(ops, pub(20))
+	}
+	if r.Intn(4) > 0 {
+		ops = append(ops, hx.C("ORun", c))
+	}
+	for i := r.Intn(4); i > 0; i-- {
+		ops = append(ops, pub(30)) // pending at Stop
+	}
+	switch r.Intn(5) {
+	case 0, 1:
+		ops = append(ops, hx.C("OAct", hx.C("AStop", c)))
+	case 2:
+		ops = append(ops, hx.C("OOwn", c, hx.C("AStop", c)))
+	case 3:
+		// a listener stops the service when the loop gets to it
+		pid := 1 + r.Int63n(3)
+		ops = append(ops, hx.C("ODef", pid, []hx.T{hx.C("AStop", c)}),
+			hx.C("OOwn", c, hx.C("ASub", c, 1, 1, 3, []int64{60}, pid)))
+	default:
+		if r.Intn(2) == 0 {
+			// stopped by the loop of the other service
+			ops = append(ops, hx.C("OStart", other), hx.C("OOwn", other, hx.C("AStop", c)))
+		}
+	}
+	for i := r.Intn(3); i > 0; i-- {
+		ops = append(ops, pub(40)) // after Stop(), loop still busy
+	}
+	if r.Intn(3) == 0 {
+		ops = append(ops, hx.C("OOwn", c, hx.C("ASub", c, 1, 1, 0, []int64{70}, 0)))
+	}
+	ops = append(ops, hx.C("ORun", c))
+	for i := 1 + r.Intn(3); i > 0; i-- {
+		ops = append(ops, pub(50)) // loop gone (if it was stopped)
+	}
+	tail := []hx.T{
+		hx.C("OAct", hx.C("ASub", c, 1, 1, 1, []int64{80}, 0)),
+		hx.C("OStart", c),
+		hx.C("ORun", c),
+		hx.C("OAct", hx.C("AStop", c)),
+		hx.C("OOwn", c, hx.C("APub", c, 1, []int64{90})),
+		hx.C("OAct", hx.C("AClear", c)),
+	}
+	r.Shuffle(len(tail), func(i, j int) { tail[i], tail[j] = tail[j], tail[i] })
+	ops = append(ops, tail[:r.Intn(len(tail)+1)]...)
+	if r.Intn(2) == 0 {
+		ops = append(ops, hx.C("ODrain", hx.Pick(r, []int64{1, 2, c}), 3))
+	}
+	return ops
+}
+
+// random histories over two run services, a driver-owned channel centre, a direct centre and a
+// light centre: any action from the driver or from a loop goroutine, listener programs that
+// stop services, life-cycle operations anywhere.
+func genSvcRandom(r *rand.Rand, maxLen int) []hx.T {
+	g := &genCtx{r: r, names: int64(1 + r.Intn(2))}
+	two := false
+	switch r.Intn(4) {
+	case 0:
+		g.centres = []int64{4}
+	case 1:
+		g.centres, two = []int64{4, 5}, true
+	case 2:
+		g.centres = []int64{4, 1}
+	default:
+		g.centres, two = []int64{4, 5, 1, 0, 10}, true
+	}
+	svc := func() int64 {
+		if r.Intn(20) == 0 {
+			return hx.Pick(r, []int64{0, 3, 6, 10})
+		}
+		if two && r.Intn(3) == 0 {
+			return 5
+		}
+		return 4
+	}
+	prog := func() []hx.T {
+		n := r.Intn(4)
+		out := make([]hx.T, n)
+		for i := range out {
+			if r.Intn(8) == 0 {
+				out[i] = hx.C("AStop", svc())
+			} else {
+				out[i] = g.action(true)
+			}
+		}
+		return out
+	}
+	var ops []hx.T
+	for pid := int64(1); pid <= 5; pid++ {
+		if r.Intn(5) > 0 {
+			ops = append(ops, hx.C("ODef", pid, prog()))
+		}
+	}
+	n := 4 + r.Intn(maxLen)
+	for len(ops) < n+5 {
+		switch p := r.Intn(100); {
+		case p < 8:
+			ops = append(ops, hx.C("OStart", svc()))
+		case p < 22:
+			ops = append(ops, hx.C("ORun", svc()))
+		case p < 27:
+			if r.Intn(2) == 0 {
+				ops = append(ops, hx.C("OAct", hx.C("AStop", svc())))
+			} else {
+				ops = append(ops, hx.C("OOwn", svc(), hx.C("AStop", svc())))
+			}
+		case p < 45:
+			c := g.centre()
+			g.subs++
+			a := hx.C("ASub", c, g.nameTok(), g.how(c), r.Int63n(4), g.args(), r.Int63n(6))
+			if isSvc(c) && r.Intn(3) > 0 {
+				ops = append(ops, hx.C("OOwn", c, a))
+			} else {
+				ops = append(ops, hx.C("OAct", a))
+			}
+		case p < 60:
+			ops = append(ops, hx.C("OAct", hx.C("AGPub", g.nameTok(), g.args(), 1+r.Int63n(2))))
+		case p < 70:
+			ops = append(ops, hx.C("OAct", hx.C("APub", g.centre(), g.nameTok(), g.args())))
+		case p < 85:
+			ops = append(ops, hx.C("OOwn", svc(), g.action(false)))
+		case p < 90:
+			ops = append(ops, hx.C("ODrain", g.centre(), 1+r.Int63n(3)))
+		case p < 92:
+			ops = append(ops, hx.C("ODef", 1+r.Int63n(5), prog()))
+		default:
+			ops = append(ops, hx.C("OAct", g.action(false)))
+		}
+	}
+	return ops
+}
+
 // ---------------------------------------------------------------- tags / non-triviality
 
 func tagsOf(trace []any) (tags []string, nontrivial bool) {
@@ -293,6 +543,12 @@ func tagsOf(trace []any) (tags []string, nontrivial bool) {
 		switch name {
 		case "VInv":
 			nontrivial = true
+			switch g := t.Int(3); {
+			case g >= 4:
+				set["invoked-on-loop-goroutine"] = true
+			case g != 0:
+				set["invoked-on-unknown-goroutine"] = true
+			}
 			depth++
 			if depth >= 2 {
 				set["nested-invocation"] = true
@@ -351,8 +607,6 @@ func tagsOf(trace []any) (tags []string, nontrivial bool) {
 			if nfull > 0 && nroom > 0 {
 				set["full-and-served-centres"] = true
 			}
-		case "VDeq":
-			set["drain"] = true
 		case "VDrop":
 			set["bulk-receive"] = true
 			if len(t.Args[1].([]any)) > 0 {
@@ -360,6 +614,16 @@ func tagsOf(trace []any) (tags []string, nontrivial bool) {
 			}
 		case "VDeadlock":
 			set["blocked"] = true
+		case "VStop":
+			nontrivial = true
+			set["service-stop"] = true
+		case "VSkip":
+			nontrivial = true
+		case "VDeq":
+			set["drain"] = true
+			if isSvc(t.Int(0)) {
+				set["loop-delivery"] = true
+			}
 		}
 	}
 	for t := range set {
@@ -413,6 +677,12 @@ func Run(cfg *hx.Config) error {
 				enumerate(c, L, func(ops []hx.T) { jobs = append(jobs, job{k, ops}) })
 			}
 		}
+		for _, started := range []bool{false, true} {
+			for L := 0; L <= depth; L++ {
+				k := fmt.Sprintf("service-exhaustive-%d", L)
+				enumerateSvc(started, L, func(ops []hx.T) { jobs = append(jobs, job{k, ops}) })
+			}
+		}
 		nb := 7
 		if cfg.Tier == "thorough" {
 			nb = 10
@@ -427,17 +697,25 @@ func Run(cfg *hx.Config) error {
 		for v := 0; v < nfill; v++ {
 			jobs = append(jobs, job{"global-fill", genFill(cfg.Rng)})
 		}
+		for v := 0; v < 2*nfill; v++ {
+			jobs = append(jobs, job{"teardown", genTeardown(cfg.Rng)})
+		}
 		for i := 0; i < cfg.N; i++ {
 			maxLen := 10
 			if i%4 == 3 {
 				maxLen = 40
 			}
-			jobs = append(jobs, job{"random", genRandom(cfg.Rng, maxLen)})
+			if i%3 == 2 {
+				jobs = append(jobs, job{"service-random", genSvcRandom(cfg.Rng, maxLen)})
+			} else {
+				jobs = append(jobs, job{"random", genRandom(cfg.Rng, maxLen)})
+			}
 		}
 	}
 	// the histories are fixed now; execute them on a small pool (cases are independent: fresh
 	// centres, names unique per case) so that watchdog waits overlap
 	results := make([][]any, len(jobs))
+	extra := make([][]string, len(jobs))
 	var wg sync.WaitGroup
 	next := make(chan int)
 	for k := 0; k < 8; k++ {
@@ -445,7 +723,7 @@ func Run(cfg *hx.Config) error {
 		go func() {
 			defer wg.Done()
 			for i := range next {
-				results[i] = Exec(i, jobs[i].ops)
+				results[i], extra[i] = Exec(i, jobs[i].ops)
 			}
 		}()
 	}
@@ -456,6 +734,8 @@ func Run(cfg *hx.Config) error {
 	wg.Wait()
 	for i, j := range jobs {
 		tags, nt := tagsOf(results[i])
+		tags = append(tags, extra[i]...)
+		sort.Strings(tags)
 		cfg.Emit(hx.Case{Kind: j.kind, Ops: j.ops, Obs: results[i], Nontrivial: nt, Tags: tags})
 	}
 	return nil
